@@ -87,7 +87,7 @@ def gen_case(rng, tier):
             t["options"] = dict(ofam[(i + 1) % 3])
     top = gen.mk_task("", "top", "group", [t["id"] for t in tasks])
     tasks.append(top)
-    return {"tasks": gen.dump(tasks), "scripts": scripts, "expect": expect, "mode": mode, "jobs": {"seq": None, "par": rng.choice([2, 3]), "nonpar-under-j": 3}[mode]}
+    return {"hostile": realrun.hostile_choice(rng), "tasks": gen.dump(tasks), "scripts": scripts, "expect": expect, "mode": mode, "jobs": {"seq": None, "par": rng.choice([2, 3]), "nonpar-under-j": 3}[mode]}
 
 
 def same_value(a, b):
@@ -115,7 +115,7 @@ def eval_case(case):
     with common.Scratch("cv10") as sc:
         tasks = [gen.Task(t) for t in case["tasks"]]
         # the probe parses its own argv only up to the task id; shell-active arg values are fine here
-        pr = realrun.Project(sc.root, tasks, case["scripts"])
+        pr = realrun.Project(sc.root, tasks, case["scripts"], hostile=case.get("hostile"))
         argv = ["run", "//:top"] + (["-j", str(case["jobs"])] if case["jobs"] else [])
         r = pr.cond(argv, timeout=300)
         evs = pr.events()
